@@ -7,6 +7,8 @@
 From Coq Require Import Permutation.
 From PSA Require Import model.Bytes model.Dhcp model.Clients model.Ipdb spec.SpecTable model.Server model.Config spec.SpecConfig
   proofs.ConfigProofs.
+From PSA Require Import spec.Monitors.
+From PSA Require Import spec.WireHyps spec.WireExample proofs.WireProofs proofs.WireInv proofs.WireLease proofs.WireSnap proofs.WireHypsProofs proofs.WireExampleProofs.
 Open Scope N_scope.
 
 (* For every configuration the server accepts (any subset of fields set globally and per client, any list
@@ -54,6 +56,29 @@ Print Assumptions C07_order_independent.
 (* Global router, DNS, domain; the entry for mac1 overrides router and DNS and sets a host name, the entry for
    mac2 sets NTP only; an unknown hardware address gets the global values.  Last conjunct: without the
    representability guard the 32-bit seconds field wraps (a 200-year lease would be advertised as 63.9 years). *)
+(* ON THE WIRE (server-history part), over whole histories: on every accepted history mon_C07 holds - the options of every OFFER and
+   ACK after the message type and server identifier are exactly the option list the configuration prescribes for the requesting
+   hardware address (opts_for; that list is what C07_effective_is_expected speaks about), they carry the configured lease in whole
+   seconds and a netmask, OFFER and ACK to one hardware address agree, and the listing after an ACK shows the address reserved
+   at least as long as advertised.
+   The acceptor (model/Server.v) is what every run compares the implementation with, round by round (tag 101); the premises
+   are boolean conditions (spec/WireHyps.v) evaluated on every generated history (tag 220, Cxx_premises below); the rounds are
+   sequential with a table listing after each (interleavings: the theorems over operation histories above). *)
+Theorem C07_on_the_wire : forall c h, cfg_wire_ok c -> cfg_srv_ok c -> cfg_lease_ok c -> cfg_c07_ok c -> durations_ok c -> Forall wf_round h ->
+  snap_times 0%Z h -> accepted c h -> mon_C07 c h = true.
+Proof. exact accepted_history_c07. Qed.
+Print Assumptions C07_on_the_wire.
+
+Theorem C07_premises : forall c h, wire_hyps c h = true -> wire_premises c h.
+Proof. exact wire_hyps_premises. Qed.
+Print Assumptions C07_premises.
+
+(* the premises hold of, and the acceptor accepts, a recorded history of the real server (OFFER, ACK, NAK on an ARP conflict, silent rounds) *)
+Theorem C07_wire_nonvacuous : exists c h, wire_example = Some (c, h) /\ wire_premises c h /\ accepted c h /\
+  length h = 6%nat /\ length (events c h) = 2%nat /\ length (flat_map r_outs h) = 3%nat.
+Proof. exact wire_example_full. Qed.
+Print Assumptions C07_wire_nonvacuous.
+
 Example C07_nonvacuous :
   let mac1 := [170; 187; 204; 221; 238; 255] in let mac2 := [170; 187; 204; 221; 238; 1] in let other := [6; 0; 0; 0; 0; 9] in
   let k1 := {| k_key := Mac mac1; k_ip := V4 3232235786; k_router := V4 3232236030; k_dns := [V4 151587081]; k_ntp := []; k_hostname := [112; 114] |} in
